@@ -17,7 +17,13 @@ Tie to the code on every run:
                      `Model.Interleave.run .Local` and must reproduce every logged result.
 Schedules: ALL single-preemption schedules (thread X parked before its k-th library call for every k, the
 others run to completion, X resumes) for every ordered choice of X; 2-/3-preemption schedules enumerated at the
-switch points adjacent to shared-state accesses ("guided") and sampled uniformly; 3-thread schedules.
+switch points adjacent to shared-state accesses ("guided") and sampled uniformly; 3-thread schedules, among them
+"one thread held while ALL the others encode" (`held_while_all`): thread X is held before its k-th call — k at every
+call boundary INSIDE the dynamic extent of one of X's shared-state accesses (sched.py logs where each access begins
+and returns: the points between the steps of one logical access, check … act / insert … trim … re-read), and k
+anywhere (sampled) — the two other documents are encoded one after the other, in both orders (sampled: the first one
+only partly), X resumes; the other documents are encoded alone right before (history: X is the least recently used
+document of the process, which matters wherever the library keeps a bounded number of recent things).
 Document sets: mixed sets (different palettes and shapes) and SAME-FEATURE sets (`gen_feature_set`): both / all three
 documents use the same feature — page_by heading rows, subline_by headings, group_by, multi-section, figures, each with
 column headers, footnote / source (as table or not), title of their own formats — on one skeleton (same column names,
@@ -64,6 +70,9 @@ RULE = ("schedules of 2 or 3 real threads encoding documents with different pale
         "col_rel_width, body, page, title, footnote, source, page header / footer — kept by reference by RTFDocument) "
         "while differing in page geometry, palette, displayed columns, data and page count (≥ 2 pages each, column "
         "headers repeated, document 0 ≥ 3 pages; solo baseline built with the same sharing in a fresh process); "
+        "three-document sets also under 'one thread held inside / next to one of its shared accesses (every call "
+        "boundary of the access's dynamic extent) or anywhere, while both other documents are encoded, in both "
+        "orders, after the history: the others encoded alone'; "
         "non-trivial = the schedule is *discriminating*: replayed in the model with one process-wide "
         "colour cell (the pre-repair semantics) at least one thread would obtain a wrong colour index; distinct by "
         "(document set, schedule)")
@@ -113,7 +122,11 @@ MANIFEST = dict(
          "built with the same sharing; what an encode stores on such an object is the Global cell as well "
          "(objMemoProg: C15_object_memo_sequential, C15_shared_object_memo_interferes, "
          "C15_private_object_memo_exact), and the state of every shared object after encodes of different documents is "
-         "compared on every run.",
+         "compared on every run. Three-thread schedules include 'one thread held at every call boundary inside the "
+         "dynamic extent of each of its shared accesses while BOTH other documents are encoded (both orders), after "
+         "the others were encoded alone' — the schedules a bounded, content-keyed cache on a process-wide service "
+         "needs (Model.InterleaveLru, Props/C15lru: atomic lookups always hit, two threads are safe under all 64 "
+         "interleavings, three threads with three palettes fail under one preemption).",
     note="PARTIAL with respect to the runtime: switch points are library call boundaries (≈2 300 per small "
          "encode); preemption inside one bytecode-level shared access, free-threaded CPython and races inside C "
          "extensions (polars, Pillow) are outside the model and the scheduler. The strategy registry is a shared "
@@ -1000,12 +1013,20 @@ def _diff_excerpt(a: str, b: str) -> str:
     return f"first difference at char {i}: solo …{a[max(0, i - 30):i + 30]!r}… vs concurrent …{b[max(0, i - 30):i + 30]!r}…"
 
 
-def run_one(specs, solo, segments, timeout=60.0) -> dict:
+def run_one(specs, solo, segments, timeout=60.0, history=None) -> dict:
+    """`history`: indices of documents of the set that are encoded alone (one after the other, on the calling thread)
+    right before the threads start: what the process did last is part of a schedule's input wherever the library keeps
+    a bounded number of recent things (the document whose thread is held is then the least recently used one)"""
     from .. import sched
 
     with tempfile.TemporaryDirectory(prefix="rtfv_c15_") as wd, contextlib.redirect_stdout(io.StringIO()):
         c0 = time.process_time()
         docs = _build_all(specs, wd)
+        for i in history or []:
+            try:
+                docs[i].rtf_encode()
+            except Exception:  # noqa: BLE001
+                pass
         t0 = time.time()
         try:
             r = sched.run_scheduled([d.rtf_encode for d in docs], segments, timeout, lazy_trace=True)
@@ -1048,7 +1069,7 @@ def _warm_up(name, specs):
 def _sched_worker(task):
     base = _BASE[task["set"]]
     _warm_up(task["set"], base["specs"])
-    return run_one(base["specs"], base["solo"], task["segments"])
+    return run_one(base["specs"], base["solo"], task["segments"], history=task.get("history"))
 
 
 # ------------------------------------------------------------------ log → model events
@@ -1119,6 +1140,51 @@ def guided_points(log, ncalls, offsets=(-2, -1, 0, 1)):
             if 0 <= c + d <= ncalls:
                 pts.add(c + d)
     return sorted(pts)
+
+
+def inside_points(log, ncalls):
+    """call budgets that park a thread INSIDE one of its shared-state accesses (or right before / after it): every
+    library call boundary within the dynamic extent of the access, logged by the wrappers as entry[5] = [calls entered
+    when the access began, … when it returned].  A logical access of several steps (look a key up, insert, trim,
+    read again) is atomic only if no other thread runs between its steps; these are the points between them"""
+    pts = set()
+    for e in log:
+        ext = e[5] if len(e) > 5 else None
+        if not ext or ext[0] is None or ext[1] is None:
+            continue
+        pts.update(range(max(0, ext[0] - 1), min(ncalls, ext[1] + 1) + 1))
+    return sorted(pts)
+
+
+def held_while_all(calls, inside, rng, n_inside, n_any):
+    """≥ 3 threads, one preemption of the victim: thread x is held before its (k+1)-th call while ALL the other
+    documents are encoded — one after the other, in both orders; sampled variants: the first of them only partly (it
+    finishes after the second) — then x resumes.  Every schedule carries the history "the others were encoded alone
+    just before" (x is the least recently used document of the process).
+      held-inside: every thread x, k at every call boundary inside / next to one of x's shared accesses, both orders
+                   (sampled down to n_inside)
+      held-any:    n_any schedules with x, k (any call boundary), the order and the variant drawn uniformly"""
+    n = len(calls)
+    out = []
+    for x in range(n):
+        others = [t for t in range(n) if t != x]
+        for k in inside[x]:
+            for order in (others, others[::-1]):
+                out.append(("held-inside", [[x, k]] + [[t, None] for t in order] + [[x, None]], list(order)))
+    if n_inside is not None and len(out) > n_inside:
+        out = rng.sample(out, n_inside)
+    for _ in range(n_any):
+        x = rng.randrange(n)
+        order = [t for t in range(n) if t != x]
+        rng.shuffle(order)
+        k = rng.randint(0, calls[x])
+        if rng.random() < 0.5 or calls[order[0]] < 3:
+            segs = [[x, k]] + [[t, None] for t in order] + [[x, None]]
+        else:
+            m = rng.randint(1, calls[order[0]] - 1)
+            segs = [[x, k], [order[0], m]] + [[t, None] for t in order[1:]] + [[order[0], None], [x, None]]
+        out.append(("held-any", segs, list(order)))
+    return out
 
 
 def single_preemption(n, calls):
@@ -1414,6 +1480,7 @@ def prepare_sets(res, tier):
         st["calls"] = [t["calls"] for t in st["traced"]]
         st["gp"] = [guided_points(t["log"], t["calls"]) for t in st["traced"]]
         st["gp_before"] = [guided_points(t["log"], t["calls"], (-1,)) for t in st["traced"]]
+        st["gp_inside"] = [inside_points(t["log"], t["calls"]) for t in st["traced"]]
         _BASE[name] = dict(specs=st["specs"], solo=st["solo"])
     return plan, sets
 
@@ -1460,6 +1527,12 @@ def judge_run(res, case, st, ob, drv, n2t_unused=None):
         res.disagree(case, "a thread's logged program is not of the modelled shape (non-canonical registration or a "
                            "registry read before the thread's own registration): hypothesis of C15_local_* not met")
     return (not all(drv["model_global_ok"])), failed
+
+
+# three-document sets: how many of the schedules "x held inside one of its shared accesses, the two others encoded"
+# (all of them: None) and how many with x held anywhere are run
+HELD_INSIDE = dict(quick={None: 500, "triple": None}, thorough={None: None})
+HELD_ANY = dict(quick=100, thorough=2000)
 
 
 def run_sched(res, tier, n2t):
@@ -1562,20 +1635,26 @@ def run_sched(res, tier, n2t):
                 if name == "shared-headers" and x == 0:
                     fams += mine
                 else:
-                    every = max(1, len(mine) // 320)
+                    every = max(1, len(mine) // 250)
                     off = rng.randrange(every)
                     fams += [("single-spaced", f[1]) for f in mine[off::every]]
-            fams += sampled(calls, gp, rng, 60, 2)
-            fams += guided3(calls, gp, rng, 60)
+            fams += sampled(calls, gp, rng, 40, 2)
+            fams += guided3(calls, gp, rng, 40)
         if n == 3:
             # single preemption of each of the three threads at the switch points next to its shared accesses
             fams += [f for f in single_preemption(n, calls) if f[1][0][1] in set(gp[f[1][0][0]])]
             same3 = name.startswith(("same-", "shared-"))
             fams += three_thread(calls, gp, rng, (200 if same3 else 300) if tier == "quick" else 2000)
             fams += sampled(calls, gp, rng, (100 if same3 else 150) if tier == "quick" else 1000, 3)
-        for fam, segs in fams:
-            tasks.append(dict(set=name, family=fam, segments=segs))
-            fam_counts[f"{name}/{fam}"] = fam_counts.get(f"{name}/{fam}", 0) + 1
+            # one thread held (inside one of its shared accesses / anywhere) while BOTH other documents are encoded
+            fams += held_while_all(calls, st["gp_inside"], rng, HELD_INSIDE[tier].get(name, HELD_INSIDE[tier][None]),
+                                   HELD_ANY[tier])
+        for fam in fams:
+            task = dict(set=name, family=fam[0], segments=fam[1])
+            if len(fam) > 2:
+                task["history"] = fam[2]
+            tasks.append(task)
+            fam_counts[f"{name}/{fam[0]}"] = fam_counts.get(f"{name}/{fam[0]}", 0) + 1
     t1 = time.time()
     obs = common.pool_map(_sched_worker, tasks, chunksize=8)
     # A thread that ends in an exception of the ENVIRONMENT (OSError: Pillow's "cannot open resource" when the machine
@@ -1617,11 +1696,11 @@ def run_sched(res, tier, n2t):
     for k, (t, ob) in enumerate(zip(tasks, obs)):
         st = sets[t["set"]]
         case = dict(level="sched", set=t["set"], family=t["family"], kinds=st["kinds"], segments=t["segments"],
-                    specs=st["specs"])
+                    specs=st["specs"], **({"history": t["history"]} if t.get("history") else {}))
         disc, _ = judge_run(res, case, st, ob, drv.get(k))
         ndisc += bool(disc)
         res.case(dict(level="sched", set=t["set"], family=t["family"], segments=t["segments"],
-                      parks=ob.get("parks"), kinds=st["kinds"]),
+                      parks=ob.get("parks"), kinds=st["kinds"], **({"history": t["history"]} if t.get("history") else {})),
                  (t["set"], json.dumps(t["segments"])) if disc else None)
         res.count(f"{t['set']}/{t['family']}")
         res.corr_checked += 1
@@ -1630,6 +1709,7 @@ def run_sched(res, tier, n2t):
     res.extra["shared_events_per_thread"] = {name: [len(t["log"]) for t in sets[name]["traced"]] for name, _ in plan}
     res.extra["guided_points_per_thread"] = {name: [len(g) for g in sets[name]["gp"]] for name, _ in plan}
     res.extra["before_access_points_per_thread"] = {name: [len(g) for g in sets[name]["gp_before"]] for name, _ in plan}
+    res.extra["inside_access_points_per_thread"] = {name: [len(g) for g in sets[name]["gp_inside"]] for name, _ in plan}
     res.extra["schedules_by_family"] = fam_counts
     res.extra["schedules_total"] = len(tasks)
     res.extra["discriminating_schedules"] = ndisc
@@ -1645,7 +1725,11 @@ def run_sched(res, tier, n2t):
                                        "boundary) of: " + ", ".join(n for n, k in plan if len(k) == 2 and
                                                                     n not in ("pair-tables", "shared-most",
                                                                               "shared-page"))
-                                       if tier == "quick" else ""))
+                                       if tier == "quick" else "")
+                                    + "; three documents, one held at every call boundary inside / next to each of its "
+                                      "shared accesses while the two others are encoded, both orders, of: "
+                                    + ", ".join(n for n, k in plan if len(k) == 3 and
+                                                HELD_INSIDE[tier].get(n, HELD_INSIDE[tier][None]) is None))
     if ndisc == 0:
         res.notes.append("no discriminating schedule was produced — the run would not have noticed the old defect")
         res.disagree(dict(level="meta"), "schedule generator produced no schedule on which the process-wide-cell model "
@@ -1686,7 +1770,9 @@ def replay(payload) -> int:
                 return 2
             solo.append(f["rtf"])
         traced = _baseline_worker(("traced", specs))[:-1]
-        ob = run_one(specs, solo, case["segments"])
+        if case.get("history"):
+            print("history: documents", case["history"], "encoded alone (in this order) right before the threads start")
+        ob = run_one(specs, solo, case["segments"], history=case.get("history"))
         if ob["status"] != "ok":
             print("scheduler problem:", ob)
             return 2
